@@ -22,6 +22,8 @@ type bufferedConn struct {
 	buf    *packetio.Buffer
 	logger logging.LeveledLogger
 	closed int32
+	// done is closed when writeProcess has returned.
+	done chan struct{}
 }
 
 func newBufferedConn(conn net.Conn, bufSize int, logger logging.LeveledLogger) net.Conn {
@@ -34,6 +36,7 @@ func newBufferedConn(conn net.Conn, bufSize int, logger logging.LeveledLogger) n
 		Conn:   conn,
 		buf:    buf,
 		logger: logger,
+		done:   make(chan struct{}),
 	}
 
 	go bc.writeProcess()
@@ -51,6 +54,8 @@ func (bc *bufferedConn) Write(b []byte) (int, error) {
 }
 
 func (bc *bufferedConn) writeProcess() {
+	defer close(bc.done)
+
 	// Each buffered write is one framed packet: payload of up to receiveMTU
 	// bytes plus the RFC 4571 length header.
 	pktBuf := make([]byte, receiveMTU+streamingPacketHeaderLen)
@@ -78,7 +83,12 @@ func (bc *bufferedConn) Close() error {
 	atomic.StoreInt32(&bc.closed, 1)
 	_ = bc.buf.Close()
 
-	return bc.Conn.Close()
+	err := bc.Conn.Close()
+	// Closing the buffer and the connection unblocks the writer; wait for it so
+	// that no goroutine outlives Close.
+	<-bc.done
+
+	return err
 }
 
 type tcpPacketConn struct {
